@@ -16,13 +16,20 @@ import RdfModel.Driver.TtlDoc
 import RdfModel.Driver.TtlEnc
 import RdfModel.Driver.TtlP
 import RdfModel.Driver.Xsd
+import RdfModel.Driver.XsdFloat
+import RdfModel.Driver.GoTime
 import RdfModel.Driver.IRI
+import RdfModel.Driver.PIRI
 import RdfModel.Driver.JsonLd
+import RdfModel.Driver.JsonLdToRdf
 import RdfModel.Driver.RdfXml
+import RdfModel.Driver.RdfXmlDec
 import RdfModel.Driver.Pipe
 import RdfModel.Driver.Html
 import RdfModel.Driver.Latch
 import RdfModel.Driver.Offx
+import RdfModel.Driver.Mdd
+import RdfModel.Driver.RdfaDec
 open RdfModel
 
 def dispatch (line : String) : String :=
@@ -37,6 +44,7 @@ def dispatch (line : String) : String :=
         else if comp = "desc" then Driver.Description.handle op args
         else if comp = "pm" then Driver.Prefix.handle op args
         else if comp = "jl" then Driver.JsonLd.handle op args
+        else if comp = "jld" then Driver.JsonLdToRdf.handle op args
         else if comp = "rj" then Driver.RdfJson.handle op args
         else if comp = "canon" then Driver.Canon.handle op args
         else if comp = "ttl" then Driver.Ttl.handle op args
@@ -44,14 +52,20 @@ def dispatch (line : String) : String :=
         else if comp = "ttle" then Driver.TtlEnc.handle op args
         else if comp = "ttlp" then Driver.TtlP.handle op args
         else if comp = "xsd" then Driver.Xsd.handle op args
+        else if comp = "xsdf" then Driver.XsdFloat.handle op args
+        else if comp = "xsdt" then Driver.GoTime.handle op args
         else if comp = "bn" then Driver.BlankNodes.handle op args
         else if comp = "nqo" then Driver.NQO.handle op args
         else if comp = "iri" then Driver.IRI.handle op args
+        else if comp = "piri" then Driver.PIRI.handle op args
         else if comp = "rx" then Driver.RdfXml.handle op args
+        else if comp = "rxd" then Driver.RdfXmlDec.handle op args
         else if comp = "pipe" then Driver.Pipe.handle op args
         else if comp = "html" then Driver.Html.handle op args
         else if comp = "latch" then Driver.Latch.handle op args
         else if comp = "offx" then Driver.Offx.handle op args
+        else if comp = "mdd" then Driver.Mdd.handle op args
+        else if comp = "rdfa" then Driver.RdfaDec.handle op args
         else none
       r.getD "bad-op"
     | _ => "bad-op"
